@@ -646,8 +646,10 @@ func (t *Tree) Compile(file string, args []string, out io.Writer) (err error) {
 			}
 		}
 	}
-	/* sort imports to satisfy gofmt */
+	/* sort imports to satisfy gofmt, and import a package only once when the
+	   grammar asks for one that the generated code imports itself */
 	slices.Sort(t.Imports)
+	t.Imports = slices.Compact(t.Imports)
 
 	/* second pass */
 	for _, n := range slices.Collect(t.Iterator()) {
